@@ -8,7 +8,8 @@
 (* A fixed universe forest contains every node kind (directory, regular    *)
 (* file incl. empty, symlink to file / directory / nothing) and every name *)
 (* collision pattern (equal base names, names that look like the tool's    *)
-(* own ordinal prefixes, unicode / spaces).  TLC enumerates the path lists *)
+(* own ordinal prefixes, unicode / spaces, names containing ".." and a    *)
+(* backslash).  TLC enumerates the path lists *)
 (* (length <= MaxList over the candidate paths) and computes, with the      *)
 (* transcribed rules, the display name of every listed path and the set of *)
 (* relative paths the manifest will contain; Unique is the design-level    *)
@@ -29,6 +30,8 @@ Forest == {
   << <<"A">>, "dir", 0 >>, << <<"A", "x">>, "dir", 0 >>, << <<"A", "x", "f1">>, "reg", 3 >>,
   << <<"A", "x", "sub">>, "dir", 0 >>, << <<"A", "x", "sub", "f2">>, "reg", 0 >>, << <<"A", "x", "emptydir">>, "dir", 0 >>,
   << <<"A", "x", "sub.txt">>, "reg", 2 >>, << <<"A", "x", "sub-old">>, "dir", 0 >>, << <<"A", "x", "sub-old", "k">>, "reg", 1 >>,
+  << <<"A", "x", "notes..txt">>, "reg", 4 >>, << <<"A", "x", "v1..v2">>, "dir", 0 >>, << <<"A", "x", "v1..v2", "d...p">>, "reg", 2 >>,
+  << <<"A", "x", "sub\\f2">>, "reg", 6 >>,        \* one name containing a backslash, next to the directory sub with its file f2
   << <<"A", "y.txt">>, "reg", 7 >>,
   << <<"B">>, "dir", 0 >>, << <<"B", "x">>, "dir", 0 >>, << <<"B", "x", "f1">>, "reg", 5 >>,
   << <<"B", "x", "ln_file">>, "lnreg", 3 >>, << <<"B", "x", "ln_dir">>, "lndir", 0 >>, << <<"B", "x", "ln_broken">>, "lnnone", 0 >>,
@@ -39,7 +42,7 @@ Forest == {
 
 \* paths a user may list (each resolves to a directory or a regular file)
 Candidates == { <<"A", "x">>, <<"B", "x">>, <<"C", "1_x">>, <<"E", "2_x">>, <<"A", "y.txt">>, <<"B", "y.txt">>,
-                <<"D", "u n">>, <<"A">>, <<"A", "x", "sub">>, <<"B", "x", "ln_file">> }
+                <<"D", "u n">>, <<"A">>, <<"A", "x", "sub">>, <<"B", "x", "ln_file">>, <<"A", "x", "notes..txt">>, <<"A", "x", "v1..v2">> }
 
 VARIABLES list, phase
 vars == <<list, phase>>
